@@ -599,6 +599,52 @@ def r6_scaled_value_scaled_error(ctx):
     ctx.floor("magnitude constructions scanned", n, 8)
 
 
+def _array_values_are_float(ctx):
+    """Magnitude.__init__ expands a scalar uncertainty with np.full_like(self.value, self.error): the error array takes
+    the dtype of the value array.  Lists and arrays are therefore held as float arrays; an integer array stored as
+    given turns abse=0.5 into 0.  On every non-raising path the expression stored to self.value is read: apart from the
+    Decimal branch it converts (float(..), dtype=float, astype(float)); the argument itself is the violation."""
+    from ..flowexpr import paths
+    fn = ctx.fn(MAG, "Magnitude.__init__")
+    pa = [a.arg for a in fn.args.args]
+    pv = pa[1] if len(pa) > 1 else "value"
+    what = "a list / array value is held as a float array (the expanded uncertainty takes its dtype)"
+    seen = set()
+    n = 0
+    for q in paths(fn):
+        if q.status == "raise":
+            continue
+        st = [e for e in q.events if e.kind == "store" and e.extra == "self.value"]
+        if not st:
+            continue
+        v = st[0].resolved
+        key = norm(v)
+        if key in seen:
+            continue
+        seen.add(key)
+        decimal = any(isinstance(t.resolved, ast.AST) and "Decimal" in norm(t.resolved) and t.extra for t in q.tests())
+        leaves, todo = [], [v]
+        while todo:
+            x = todo.pop()
+            if isinstance(x, ast.IfExp):
+                todo += [x.body, x.orelse]
+            else:
+                leaves.append(x)
+        n += 1
+        for leaf in leaves:
+            t = norm(leaf)
+            if t == pv:
+                if decimal:
+                    ctx.holds(MAG, "Magnitude.__init__", what, detail="Decimal kept as given")
+                else:
+                    ctx.violated(MAG, "Magnitude.__init__", what, detail=f"self.value = {key[:100]}", expected=f"{pv}.astype(float) / np.array({pv}, dtype=float)")
+            elif t.startswith("float(") or "dtype=float" in t or ".astype(float)" in t or "np.float64(" in t or "np.asarray(" in t and "float" in t:
+                ctx.holds(MAG, "Magnitude.__init__", what, detail=t[:80])
+            else:
+                ctx.form(False, MAG, "Magnitude.__init__", what, detail=t[:100])
+    ctx.floor("stores to Magnitude.value", n, 3)
+
+
 def r8_stated_uncertainty_reaches_the_object(ctx):
     """abse(x) / rele(x) with an argument set the uncertainty.  The setter of Magnitude either writes self.error (then a
     caller may discard what it returns) or hands back a new object (then every caller has to keep the result).  The
@@ -655,6 +701,7 @@ def r8_stated_uncertainty_reaches_the_object(ctx):
                 ctx.violated(rel, q, what, detail=f"{norm(c)[:80]} as a statement, while Magnitude.{c.func.attr}(x) returns a new object and leaves self.error as it was",
                              expected=f"{recv} = {norm(c)[:60]}  (or a setter that writes self.error)")
     ctx.floor("setter calls with a discarded result", n + (0 if all(writes.values()) else 1), 1)
+    _array_values_are_float(ctx)
 
 
 def r7_operand_errors_intact(ctx):
